@@ -114,8 +114,33 @@ def handle (ts : Toks) : String :=
      else ",".intercalate fails ++ (if agree then "" else " " ++ r.why))
 end Race
 
+/-- `C09 ABORT # O:<outcome> F:<facts> NCB:<calls>:<registered> CBSAME:b NREC:n X:ret:b H:d S:b TI:b [R:…]`:
+    execute() returned after an operator abort at some scheduling step; the same end-of-run contract applies -/
+def handleAbort (ts : Toks) : String :=
+  let (_, real) := splitAt "#" ts
+  let fails : List String :=
+    (if real.any (·.startsWith "R:") then (real.filter (·.startsWith "R:")).map (fun t => (t.drop 2).toString) else []) ++
+    (match (real.filter (·.startsWith "F:")).head? with
+     | none => ["no-record"]
+     | some f => match parseFacts f with
+       | none => ["malformed-facts"]
+       | some facts => if final facts then [] else ["record-not-final"]) ++
+    (match (real.filter (·.startsWith "NCB:")).head? with
+     | some t => match t.splitOn ":" with
+       | [_, a, b] => if a == b then [] else ["callbacks-not-once-each"]
+       | _ => ["malformed"]
+     | none => ["malformed"]) ++
+    (if real.contains "CBSAME:1" then [] else ["callbacks-got-different-records"]) ++
+    (if real.contains "NREC:1" then [] else ["not-exactly-one-record"]) ++
+    (if real.contains "X:ret:1" == real.contains "O:PASS" then [] else ["return-value-not-iff-pass"]) ++
+    (if real.contains "H:0" then [] else ["record-log-handler-leaked"]) ++
+    (if real.contains "S:1" then [] else ["test-still-holds-executor"]) ++
+    (if real.contains "TI:0" then [] else ["still-registered-for-sigint"])
+  reply true fails.isEmpty (if fails.isEmpty then "ok" else ",".intercalate fails)
+
 def handle (ts : Toks) : String :=
   if ts.head? == some "RACE" then Race.handle ts else
+  if ts.head? == some "ABORT" then handleAbort ts else
   let (inp, real) := splitAt "#" ts
   match C08.run inp with
   | some ((cfg, r), []) =>
